@@ -5,6 +5,26 @@ import os
 ROOT = os.path.dirname(os.path.dirname(os.path.abspath(__file__)))
 
 CHECKS = {
+ "C16": dict(
+    text="Partial. Theorems C16_content_length_roundtrip (all of 0..2^64-1, via a general decimal print/parse round-trip lemma), C16_connection/encoding/expect_roundtrip (every enum value), C16_host_roundtrip, C16_lookup_first_occurrence and C16_lookup_any_capitalisation (the case-insensitive collection returns the first occurrence under every capitalisation, for any header list). Cache-Control directive lists, Date, Content-Type and the string-valued headers are decided by API-level and text-level double round trips compared with the model / checked by the oracle.",
+    note="Closed under the global context. Open known finding C16-server-multitoken (multi-token Server reads back as one token; text identical). Host with port 0 is an excluded corner. Trusted: harness/h_headers.cc, generator.",
+    technique="Coq proof (decimal round-trip, enum sweeps, case-insensitive first-wins lookup) + differential correspondence of write/parse/write on the real headers",
+    design="§2 C16"),
+ "C17": dict(
+    text="Partial. Theorems C17_attributes_roundtrip (any name without '=', value without ';' and ANY list of Path/Domain/Max-Age/Expires/Secure/HttpOnly attributes in any order parses to exactly those settings), C17_roundtrip (write then parse gives an equal cookie for every subset of the six attributes, Max-Age 0..INT_MAX, Expires under the date round-trip hypothesis), C17_iter_once, C17_jar_exact. Extension attributes, letter case, malformed text and both iterator increments are decided by the correspondence check (ASan+UBSan, non-terminated views).",
+    note="Closed under the global context. Section parameters: date_write/date_parse (Howard Hinnant's date.h) with parse(write d) = d as hypothesis; Expires cases are impl-only in the correspondence. Trusted: harness/h_cookie.cc.",
+    technique="Coq proof (induction over attribute lists of the real parse loop) + differential correspondence incl. sanitizers",
+    design="§2 C17"),
+ "C18": dict(
+    text="Partial. Theorems C18_roundtrip_type_subtype_suffix and C18_roundtrip_quality (exhaustive in-kernel sweeps over every (type, subtype, suffix) of the tables regenerated from mime.h and over the 101 quality values, lifted to the quantified statements), C18_text_preserved (toString of a parsed media type is the text it was parsed from, for every text). Parameters, letter case, vendor/extension subtypes and rejection of malformed text (415, no read past the length) are decided by the correspondence check on non-terminated exact-size views under ASan+UBSan.",
+    note="Closed under the global context; vm_compute sweeps are part of the proof. Quality texts are modelled as exact decimals (exponent/hex/inf/nan forms and third-decimal ties are outside the model and skipped in the comparison). Trusted: harness/h_mime.cc (reads the private parameter map), tools/gen_tables.py.",
+    technique="Coq proof by exhaustive sweep over regenerated tables + differential correspondence incl. sanitizers",
+    design="§2 C18"),
+ "C19": dict(
+    text="Full under stated libc hypotheses. Theorems C19_port_roundtrip, C19_port_never_out_of_range (whatever the text), C19_v4_with_port / default_port, C19_v6_with_port, C19_alias_star / localhost, C19_empty_port_rejected, C19_print_parse_v4 / v6 (printing gives a text that parses back to the same address), all parametric in getaddrinfo/inet_pton/inet_ntop with the hypothesis each uses; the harness validates those hypotheses against the real libc on every run and compares Address/Port on valid, aliased and garbled texts.",
+    note="Closed under the global context. Libc conversions are section parameters, not axioms. strtol extras (' 80', '+80', '-0', '080') are modelled and compared, asserted neither way. Trusted: harness/h_net.cc, Python socket module as the oracle for canonical IPv6 text.",
+    technique="Coq proof (string splitting lemmas + decimal round-trip) parametric in libc + differential correspondence against the real libc",
+    design="§2 C19"),
  "C11": dict(
     text="Partial. Theorems C11_at_most_once (in the run of ANY program over the modelled API - then with value/void callbacks, rethrowing/swallowing handlers, whenAll, whenAny, settling in any order incl. twice - each continuation's fulfilment callback and rejection callback run at most once) and C11_later_outcomes_raise_nothing (a settling party gets an error only when the very promise it settles is not pending: outcomes reaching a decided whenAll/whenAny are ignored). That the fulfilment continuation runs exactly when fulfilled with the produced value, rejections propagate through rethrow, whenAll delivers values in argument order is decided by comparing the real callback log with the model's on generated programs.",
     note="Closed under the global context. Model: depth-first continuation runs as an explicit task stack; promise-returning continuations are outside the model. Trusted: harness/h_promise.cc script interpreter (ASan build), generator.",
